@@ -318,12 +318,21 @@ def update(
                     priority == "new-defaults"
                     and isinstance(defaults, Mapping)
                     and canonical_name(k, defaults) in defaults
-                    and defaults[canonical_name(k, defaults)] == old[k]
+                    and _normalized(defaults[canonical_name(k, defaults)]) == _normalized(old[k])
                 )
             ):
                 old[k] = v
 
     return old
+
+
+def _normalized(value: Any) -> Any:
+    """value with the '-' / '_' spellings of nested mapping keys identified (for comparisons only)"""
+    if isinstance(value, Mapping):
+        return {
+            k.replace("-", "_") if isinstance(k, str) else k: _normalized(v) for k, v in value.items()
+        }
+    return value
 
 
 def collect(path: Path | str = PATH, env: Mapping[str, str] | None = None) -> dict:
